@@ -52,6 +52,13 @@ def gen(rng, tier, index):
         if rng.random() < 0.06 and data:
             pos = rng.randrange(len(data))
             data = data[:pos] + bytes([rng.choice([0xFF, 0xC3, 0xE2, 0x80, 0xF0])]) + data[pos:]
+        if rng.random() < 0.07 and data:
+            # characters that some text APIs (str.splitlines) take for line ends, inside a line: lone CR, VT, FF, FS/GS/RS,
+            # NEL, LINE / PARAGRAPH SEPARATOR - only LF ends a line on this wire
+            pos = rng.randrange(len(data) + 1)
+            while 0 < pos < len(data) and (data[pos] & 0xC0) == 0x80:
+                pos += 1  # not inside a multi-byte character
+            data = data[:pos] + rng.choice([b"\r", b"\x0b", b"\x0c", b"\x1c", b"\x1d", b"\x1e", b"\xc2\x85", b"\xe2\x80\xa8", b"\xe2\x80\xa9"]) + data[pos:]
         data = data.replace(b"\n", b" ")
         stream += data + (b"\r\n" if rng.random() < 0.35 else b"\n")
         line_ends.append(len(stream))
@@ -85,6 +92,8 @@ def gen(rng, tier, index):
         else:
             sched = {"policy": "serial"}
         var = {"flavour": flavour, "seg": seg, "cuts": cuts, "sched": sched, "gap": rng.choice([0.0, 0.0, 0.001, 0.03])}
+        if rng.random() < 0.12 and len(stream) < 1500 and seg != "bytes":
+            var["gap"] = rng.choice([1.2, 2.5, 11.0])  # a slow trickle: seconds between chunks (also in the middle of a line)
         if flavour in ("serial", "tcp") and rng.random() < 0.2:
             # the last two lines arrive back to back while the poll thread is just finishing the first of them:
             # one or two forced switches inside the poll loop, counted from the arrival of the first
